@@ -96,7 +96,10 @@ def run_parser_fuzz(rng):
 # (b) hostile frames with probes
 
 
-def catalogue(rng, real):
+GLUE_LINKS = ('ws', 'aiohttp', 'quart', 'channels')
+
+
+def catalogue(rng, real, link='bytes'):
     """(name, [('frame', dict) | ('raw', bytes)], target stream ids)."""
     from ..rawpeer import setup_frame
     par = 1 if real == 's' else 0           # parity of ids the raw peer may open
@@ -157,6 +160,14 @@ def catalogue(rng, real):
     c.append(('truncated-request-stream', [('raw', sidb + bytes([6 << 2, 0, 0]))], [unk]))
     c.append(('error-frame-bad-code', [('raw', sidb + bytes([11 << 2, 0, 0, 0, 0, 9]))], [unk]))
     c.append(('ignore-flag-unknown-type', [('raw', sidb + bytes([(40 << 2) | 2, 0]) + J(3))], [unk]))
+    if link in GLUE_LINKS:
+        # websocket messages that are not binary ones: whatever the websocket library hands to the transport glue
+        # for them (a str, a TEXT / PING message object) must be ignored like any other junk
+        text = ''.join(rng.choice('abc {}\u00e9\u4e2d\x00') for _ in range(rng.randrange(0, 12)))
+        c.append(('websocket-text-message', [('msg', ('text', text))], []))
+        c.append(('websocket-text-then-frame', [('msg', ('text', text)), ('frame', {'type': 'REQUEST_N', 'sid': unk, 'n': 1})], [unk]))
+        c.append(('websocket-ping-message', [('msg', ('ping', J(rng.randrange(0, 8))))], []))
+        c.append(('empty-binary-message', [('raw', b'')], []))
     return c
 
 
@@ -217,6 +228,8 @@ async def _hostile(rng, desc):
             nstim += 1
             if kind == 'frame':
                 peer.send(x)
+            elif kind == 'msg':
+                peer.send_msg(*x)
             else:
                 peer.send_raw(x)
         if i == len(stimuli) // 2:
@@ -289,6 +302,17 @@ async def _hostile(rng, desc):
         obs['tasks'] = {n: (getattr(ep, n) is not None and not getattr(ep, n).done()) for n in ('_sender_task', '_receiver_task')}
     except AttributeError:
         obs['tasks'] = None
+    # the transport's own receive loop (glue links): it must have survived the input as well
+    obs['glue'] = []
+    lk = rw.link
+    if isinstance(getattr(lk, 'tasks', None), dict):
+        loops = [(n, t) for n, t in lk.tasks.items() if n in ('glue-' + real, 'handler-' + real)]
+        mh = getattr(lk.transports[real], '_message_handler', None)
+        if mh is not None and desc['link'] != 'channels':
+            loops.append(('_message_handler', mh))
+        for n, t in loops:
+            if t.done():
+                obs['glue'].append((n, 'cancelled' if t.cancelled() else repr(t.exception())))
     if own_fut is not None:
         obs['own'] = own_fut.done() and not own_fut.cancelled() and own_fut.exception() is None and \
             bytes(own_fut.result().data or b'') == b'own-answer'
@@ -634,10 +658,13 @@ def _run_case(gen, idx, rng, tier):
         return {'evals': 1, 'nt_count': 1, 'deciding': st, 'witnesses': wit[:3], 'sample': case}
     if gen == 'hostile-frames':
         real = rng.choice('ssc')
-        cat = catalogue(rng, real)
+        link = rng.choice(['bytes', 'messages', 'bytes', 'messages'] + list(GLUE_LINKS))
+        cat = catalogue(rng, real, link)
         k = rng.choice([1, 1, 2, 3, 5])
         stimuli = [rng.choice(cat) for _ in range(k)]
-        desc = {'real': real, 'link': rng.choice(['bytes', 'messages']), 'frag': rng.choice([None, 64]),
+        if link in GLUE_LINKS and rng.random() < 0.5:
+            stimuli[rng.randrange(k)] = rng.choice(cat[-4:])
+        desc = {'real': real, 'link': link, 'frag': rng.choice([None, 64]),
                 'spacing': rng.choice(['settle', 'b2b']), 'stimuli': [s[0] for s in stimuli], '_stimuli': stimuli}
         obs, world = vloop.run(_hostile(rng, desc))
         if obs['tasks'] is None:
@@ -671,10 +698,12 @@ def _run_case(gen, idx, rng, tier):
             bad('endpoint-task-ended', tasks=obs['tasks'])
         if obs['closed']:
             bad('connection-closed-by-hostile-input', on_close_calls=obs['closed'])
+        if obs['glue']:
+            bad('transport-receive-loop-ended', loops=obs['glue'])
         seen = set()
         ws = [w for w in wit if not (w['clause'] in seen or seen.add(w['clause']))]
         return {'evals': 1, 'nt_keys': [short_hash(public)], 'deciding': st, 'witnesses': ws, 'sigs': [world.signature()],
-                'counts': {'stimulus_' + s[0]: 1 for s in stimuli}, 'sample': public}
+                'counts': dict({'stimulus_' + s[0]: 1 for s in stimuli}, **{'hostile_runs_on_' + link: 1}), 'sample': public}
     # failing-app
     from . import c01
     from ..pair import trace_excerpt
